@@ -2,7 +2,10 @@ module verifharness
 
 go 1.23.0
 
-require github.com/moov-io/ach v0.0.0
+require (
+	github.com/anishathalye/porcupine v1.3.0
+	github.com/moov-io/ach v0.0.0
+)
 
 require (
 	github.com/igrmk/treemap/v2 v2.0.1 // indirect
